@@ -5,7 +5,7 @@
    nowhere else: other positions carry no `def` keyword, and an `async` keyword is followed, on its own
    line, by a token that is not `def` (a line does not end with `async`). *)
 From Verif Require Import Base Regex Token TokEngine Headers Blocks Spec HeaderSpec LexShapes PySpec Grammar GrammarAll PyGrammar.
-From Verif Require Import GrammarProofsParen GrammarProofsBrace GrammarProofsHeaders GrammarAllProofsWf
+From Verif Require Import GrammarProofsParen GrammarProofsBrace GrammarProofsHeaders GrammarAllProofsTok GrammarAllProofsWf
   GrammarAllProofsSel GrammarAllProofsCand PyGrammarProofsWf.
 Open Scope nat_scope.
 
